@@ -7,7 +7,7 @@ CONSTANTS
   Degs <- DegsQ
   MaxNpts = 4
   Acts = {"CvDegreeIncrease", "CvDegreeDecrease"}
-  PtKinds = {"gen", "homlin"}
+  PtKinds = {"gen", "homlin", "negw"}
   WtKinds = {"none", "gen", "const"}
   ExtraNodes <- Extra0
   NodeSize = 2
